@@ -361,7 +361,10 @@ theorem writesOf_writes (n : Name) (ws : List Bytes) : writesOf n (writesTo n ws
   | cons s r ih => simp only [writesTo, List.map] at ih ⊢; simp [writesOf, ih]
 
 theorem dynWrites_flatten (r : DynRec) : (dynWrites r).flatten = encDyn r := by
-  simp [dynWrites, encDyn]
+  by_cases h : r.name.length = 0
+  · have : r.name = [] := List.eq_nil_of_length_eq_zero h
+    simp [dynWrites, encDyn, this]
+  · simp [dynWrites, encDyn, h]
 
 theorem dynCopy_body (name : Bytes) : ∀ fuel bs, ∀ op ∈ dynCopy name fuel bs, Body .dyn op := by
   intro fuel
